@@ -875,8 +875,7 @@ def main():
         profile = C2Profile.from_beacon_config(config)
     else:
         try:
-            with open(args.input) as f:
-                profile = C2Profile.from_text(f.read())
+            profile = C2Profile.from_path(args.input)
         except Exception as e:
             logging.exception(f"Failed to parse {path}: {e}", exc_info=False)
             return 1
